@@ -26,7 +26,9 @@ def run(P, rep, tier):
     rep.explanation = ('Counting and provenance invariants of source positions. The byte loops of tokenize.c are verified per generic '
                        'iteration (loop cut at its head, every assigned variable replaced by a symbol, inner counting loops summarised), '
                        'which proves the per-iteration law for inputs of any length; __LINE__/__FILE__/#line/synthesised tokens are '
-                       'decided by abstract interpretation of the handlers on lazy tokens; writers of Token.line_no by who-may-write over all units. '
+                       'decided by abstract interpretation of the handlers on lazy tokens; writers of Token.line_no by who-may-write over all units; '
+                       'the .loc directive by enumerating every path of gen_expr/gen_stmt up to the first line they write for their own node, from any remembered state '
+                       '(a conditional or cached .loc that looks at less than file and line is a violation; a cache over both is reported as undecided). '
                        'Not decided: positions for all inputs end to end.')
     rep.assumptions += ['the output cursor of an in-place filter never overtakes its input cursor (reads see unmodified input)',
                         'no token starts at a newline character', 'calloc succeeds']
